@@ -51,17 +51,24 @@ pub fn family_e_jobs(plan: &[(usize, bool, usize)], budget_programs: usize) -> (
             let mut n = 0usize;
             let mut tys = vec![Ty::Int(main), Ty::Bool];
             tys.extend(g.cfg.others.iter().filter(|t| **t != Ty::Bool).cloned());
+            // each (main type, plan entry) gets an equal share of the program budget; when a list is
+            // longer than its share, every s-th expression is taken (the evidence says how many)
+            let share = (budget_programs / (2 * plan.len()).max(1)).max(1);
+            let total: usize = tys.iter().map(|ret| g.gen(ret, *k).len()).sum();
+            let stride = total.div_ceil(share).max(1);
+            let mut idx = 0usize;
             for ret in tys {
                 let es = g.gen(&ret, *k);
                 for e in es.iter() {
-                    if jobs.len() >= budget_programs {
-                        break;
+                    idx += 1;
+                    if idx % stride != 0 {
+                        continue;
                     }
                     jobs.push(Job { family: "E", site: format!("E/{}/k{}/{}", main.name(), k, shape(e)), prog: g.program(e, &ret), inputs: inputs.clone() });
                     n += 1;
                 }
             }
-            summary.push(json!({"family": "E", "main": main.name(), "k": k, "rich_leaves": rich, "inputs_per_program": inputs.len(), "programs": n}));
+            summary.push(json!({"family": "E", "main": main.name(), "k": k, "rich_leaves": rich, "inputs_per_program": inputs.len(), "programs": n, "of_all_programs_of_this_size": total, "every_nth_taken": stride}));
         }
     }
     (jobs, json!(summary))
@@ -163,7 +170,7 @@ pub fn family_jobs(tier: Tier, families: &[&str]) -> (Vec<Job>, serde_json::Valu
     if families.contains(&"E") {
         let (js, pl) = match tier {
             Tier::Quick => family_e_jobs(&[(0, true, 0), (1, true, 32), (2, false, 10)], usize::MAX),
-            Tier::Thorough => family_e_jobs(&[(0, true, 0), (1, true, 0), (2, true, 24), (3, false, 8)], 1_200_000),
+            Tier::Thorough => family_e_jobs(&[(0, true, 0), (1, true, 0), (2, true, 24), (2, false, 0)], 700_000),
         };
         jobs.extend(js);
         plan.insert("E".into(), pl);
@@ -171,7 +178,7 @@ pub fn family_jobs(tier: Tier, families: &[&str]) -> (Vec<Job>, serde_json::Valu
     if families.contains(&"E-small") {
         let (js, pl) = match tier {
             Tier::Quick => family_e_jobs(&[(0, true, 16), (1, true, 16), (2, false, 6)], usize::MAX),
-            Tier::Thorough => family_e_jobs(&[(0, true, 32), (1, true, 32), (2, true, 10)], usize::MAX),
+            Tier::Thorough => family_e_jobs(&[(0, true, 32), (1, true, 32), (2, true, 10)], 250_000),
         };
         jobs.extend(js);
         plan.insert("E".into(), pl);
@@ -180,7 +187,7 @@ pub fn family_jobs(tier: Tier, families: &[&str]) -> (Vec<Job>, serde_json::Valu
         use IntTy::*;
         let (js, pl) = match tier {
             Tier::Quick => family_e_wide_jobs(&[U64, I64, Usize], &[0, 1], 6),
-            Tier::Thorough => family_e_wide_jobs(&[U64, I64, U16, I16, U32, I32, Usize], &[0, 1, 2], 14),
+            Tier::Thorough => family_e_wide_jobs(&[U64, I64, U16, I16, U32, I32, Usize], &[0, 1], 14),
         };
         jobs.extend(js);
         plan.insert("E-wide".into(), pl);
@@ -220,6 +227,8 @@ pub fn family_jobs(tier: Tier, families: &[&str]) -> (Vec<Job>, serde_json::Valu
         jobs.extend(js);
         plan.insert("D".into(), pl);
     }
+    // the (huge) expression family last: if a wall or memory cap stops the run, the tail is what is left out
+    jobs.sort_by_key(|j| j.family == "E");
     (jobs, serde_json::Value::Object(plan))
 }
 
@@ -259,6 +268,13 @@ pub fn run_shared(property: &'static str, tier: Tier, families: &[&str], extra_a
     let start = Instant::now();
     let budget = Budget::new(tier.pick(240.0, 3300.0));
     let (jobs, plan) = family_jobs(tier, families);
+    if std::env::var("VERIF_TIMING").is_ok() {
+        let mut per: BTreeMap<&str, usize> = BTreeMap::new();
+        for j in &jobs {
+            *per.entry(j.family).or_insert(0) += 1;
+        }
+        eprintln!("{property}: {} jobs generated {per:?}, rss {:.1} GB, {:.0}s", jobs.len(), rss_gb(), start.elapsed().as_secs_f64());
+    }
     let fr = run_jobs(jobs, attribution_for, &budget, plan);
     let mut cov_extra = None;
     if property == "C01" {
